@@ -76,18 +76,16 @@ theorem simplify_keeps_lookup (null : α) (sh : Shp) (wf : WF sh) (c : Cls) (val
 
 /-! ### `get_subset` cannot fail in these regions (`Proofs/Total.lean`) -/
 
-/-- `_simplify` never raises on a valid key when a present time / vector axis has ≥ 2 entries -/
+/-- `_simplify` never raises on a valid key (with the F22 repair: whatever the axis lengths) -/
 theorem simplify_total (null : α) (sh : Shp) (wf : WF sh) (hsl : sh.hasSlice = true)
-    (ht : sh.hasTime = true → 2 ≤ sh.T) (hv : sh.hasVector = true → 2 ≤ sh.V)
     (c : Cls) (vals : List α) (hl : vals.length = mult sh c) :
     ∃ o, simplifyK null sh c vals = .ok o :=
-  Total.simplifyK_ok null sh wf hsl ht hv c vals hl
+  Total.simplifyK_ok null sh wf hsl c vals hl
 
 theorem subset_slice_total (null : α) (sh : Shp) (hc : Consistent sh)
-    (hV2 : sh.hasVector = true → 2 ≤ sh.V)
     (ks : KeyState α) (hv : ValidK sh ks) (idx : Nat) (hidx : idx < sh.S) :
     ∃ p, subsetSliceK null sh ks idx = .ok p :=
-  Total.subsetSliceK_ok null sh hc hV2 ks hv idx hidx
+  Total.subsetSliceK_ok null sh hc ks hv idx hidx
 
 theorem subset_time_total (null : α) (sh : Shp) (hc : Consistent sh) (h45 : sh.nd = 4 ∨ sh.nd = 5)
     (hV2 : sh.nd = 5 → 2 ≤ sh.V)
